@@ -124,9 +124,48 @@ def flood():
     return out
 
 
+def stop_during_start(which):
+    """observer.start() is starting its emitters (no registry lock) while another thread calls stop() / unschedule_all():
+    the emitter caught between on_thread_start() and Thread.start() must still be told to stop - after stop()+join()
+    no emitter thread may be running"""
+    out = []
+    in_start, go = threading.Event(), threading.Event()
+
+    class Em(EventEmitter):
+        def on_thread_start(self):
+            in_start.set()
+            go.wait(3)
+
+        def queue_events(self, timeout):
+            self.stopped_event.wait(0.05)
+    obs = BaseObserver(Em, timeout=0.05)
+    obs.schedule(FileSystemEventHandler(), "/c06-start-race")
+    ems = list(obs.emitters)
+    st = threading.Thread(target=obs.start, daemon=True)
+    st.start()
+    if not in_start.wait(2):
+        return ["observer.start() never reached the emitter's on_thread_start()"]
+    ok = with_deadline(obs.stop if which == "stop" else obs.unschedule_all, 5, f"{which}() during start()", out)
+    go.set()
+    st.join(3)
+    if which != "stop":
+        with_deadline(obs.stop, 5, "stop()", out)
+    obs.join(3)
+    time.sleep(0.2)
+    alive = [e for e in ems if e.is_alive()]
+    if alive:
+        out.append(f"{which}() while start() was between an emitter's on_thread_start() and Thread.start(): the emitter thread keeps running after stop()+join() (nothing can stop it any more)")
+        for e in alive:
+            e.stop()
+    return out
+
+
 def main():
     if REPLAY is not None:
         c = REPLAY
+        if c["kind"] == "start-race":
+            pr = stop_during_start(c["which"])
+            replay_result(bool(pr), pr[:2])
         if c["kind"] == "deb":
             import c18_battery
             pr = c18_battery.SCEN[c["name"]]()
@@ -152,6 +191,11 @@ def main():
         pr = c18_battery.SCEN[name]()
         if pr:
             bat.fail("C06." + name, pr[0], {"kind": "deb", "name": name}, "EventDebouncer.run")
+    for which in ("stop", "unschedule_all"):
+        bat.case(("start-race", which))
+        pr = stop_during_start(which)
+        if pr:
+            bat.fail("C06.stop-during-start", pr[0], {"kind": "start-race", "which": which}, "BaseObserver._clear_emitters")
     bat.case("flood")
     pr = flood()
     if pr:
